@@ -59,7 +59,7 @@ def shift_ids(o, off):
 
 def check_solo(i, opts, evs, acc, case):
     """Order, gating, uri, data, shape - for one source's envelopes."""
-    uri, text = POOL[i]
+    uri, text = POOL[i] if isinstance(i, int) else i
     kinds = [next(iter(e)) if isinstance(e, dict) and len(e) == 1 else '?' for e in evs]
     r = R.reference(text, uri)
     for e in evs:
@@ -214,6 +214,28 @@ def job_sequences(first, oi, maxlen):
                     acc.violation('source-independence', case, 'envelopes of source %d at position %d are not its solo envelopes with ids shifted by %d' % (i, pos, off))
                     break
     acc.sample({'sources': [POOL[i][0] for i in (seq or (first,))], 'options': list(opts)})
+    return acc
+
+
+@worker
+def job_edits(max_chars, bi):
+    """Single-edit neighbourhood of the corpus and base documents (mc.docspace), each as the only source of a stream, in two option sets."""
+    from .. import docspace as DS
+    acc = Acc()
+    text = None
+    for text in DS.single_edits(DS.edit_bases(max_chars)[bi]):
+        for opts in ((True, True, True), (False, False, True)):
+            case = {'kind': 'solo-text', 'uri': 'e.feature', 'text': text, 'options': list(opts)}
+            acc.n += 1
+            acc.validated += 1
+            r = I.events(text, uri='e.feature', opts=opts)
+            if r[0] != 'ok':
+                acc.violation('stream-exception', case, 'enum raised ' + r[1])
+                continue
+            acc.nontrivial += 1
+            acc.outcomes['rejected' if r[1] and 'parseError' in r[1][0] else 'accepted'] += 1
+            check_solo(('e.feature', text), opts, r[1], acc, case)
+    acc.sample({'sources': ['e.feature'], 'text': (text or '')[:300]})
     return acc
 
 
@@ -489,6 +511,9 @@ def run(ctx):
     ctx.level('source_event on files', [job_files.job(items[i:i + 5]) for i in range(0, len(items), 5)])
     n = ctx.pick(3, 4)
     ctx.level('sequences <= %d' % n, [job_sequences.job(i, o, n) for i in range(len(POOL)) for o in range(len(OPTS))])
+    from .. import docspace as DS
+    mc = ctx.pick(250, 1500)
+    ctx.level('single edits of corpus and base documents <= %d characters, each as a one-source stream' % mc, [job_edits.job(mc, bi) for bi in range(len(DS.edit_bases(mc)))])
     sw = ctx.pick(2, 4)
     ctx.level('two sources drawn alternately from one stream, <= %d switches' % sw, [job_interleaved.job(i, o, sw) for i in range(len(POOL)) for o in range(len(OPTS))])
     # the command-line script prints the same envelopes
@@ -498,6 +523,13 @@ def run(ctx):
 def replay(case):
     acc = Acc()
     kind = case.get('kind')
+    if kind == 'solo-text':
+        opts = tuple(case['options'])
+        r = I.events(case['text'], uri=case['uri'], opts=opts)
+        if r[0] != 'ok':
+            return ['enum raised ' + r[1]]
+        check_solo((case['uri'], case['text']), opts, r[1], acc, case)
+        return [v[0]['message'] for v in acc.viol.values()]
     if kind in ('script', 'script-multi', 'interleaved', 'file', 'files'):
         if kind == 'script':
             acc = job_script([case['path']])
